@@ -278,9 +278,8 @@ func c09Hist(c *core.C, idx int, race bool) {
 	if anyPutOK && o.Kind != "found" {
 		c.Violation("entry-lost-after-successful-store", fmt.Sprintf("hist case=%d race=%v", idx, race), fmt.Sprintf("a store returned success but the quiescent read is %s (%s)", o.Kind, o.Detail), nil)
 	}
-	if !anyPutOK {
-		c09Repair(c, cache, tar, s, fmt.Sprintf("hist case=%d race=%v", idx, race))
-	}
+	// and a later store always leaves the entry readable and correct
+	c09Repair(c, cache, tar, s, fmt.Sprintf("hist case=%d race=%v", idx, race))
 	if overlaps > 0 {
 		c.Nontrivial(fmt.Sprintf("hist race=%v clients=%d nops=%d sleep=%d tar=%v module=%d", race, clients, nops, sleepUS, tar, mi))
 	}
